@@ -607,7 +607,7 @@ def check_C19(sc, v, tier, seed, replay):
     rnd = random.Random(seed * 1019 + 19)
     # quick: the full lifecycle of one UE at every fault point, and a second shape faulted only while the *second* UE registers
     # (a fault tolerated for later UEs only, or state left by the first UE, shows there)
-    shapes = [(1, 1, 1, 1, 1), (2, 1, 0, 0, 1)] if tier == "quick" else [(1, 1, 1, 1, 1), (2, 2, 1, 2, 2), (3, 2, 2, 1, 3)]
+    shapes = [(1, 1, 1, 1, 1), (2, 0, 0, 0, 1)] if tier == "quick" else [(1, 1, 1, 1, 1), (2, 2, 1, 2, 2), (3, 2, 2, 1, 3), (2, 0, 0, 0, 1)]
     jobs = []
     for si, s in enumerate(shapes):
         counts = dict(zip(("reg", "pdu", "svc", "rel", "dereg"), s))
@@ -618,9 +618,10 @@ def check_C19(sc, v, tier, seed, replay):
         # there races with the emulator's normal termination and is not observable by it - not a fault point (a multi-seed sweep met
         # exit status 0 there once; that alarm was the check's, not the emulator's)
         pts = [("close", a) for a in range(reads)] + [("garbage", a) for a in range(reads) if a not in ignored]
+        if s == (2, 0, 0, 0, 1):
+            pts = [(k, a) for (k, a) in pts if 5 <= a <= 8]       # reads 5..8: the second UE's registration
         if tier == "quick":
-            if si > 0:
-                pts = [(k, a) for (k, a) in pts if 5 <= a <= 8]       # reads 5..8: the second UE's registration
+            pass
         elif si > 0:
             pts = rnd.sample(pts, min(len(pts), 24))
         # undecodable answers: all-ones, a truncated but well-started PDU, a single octet, random octets, more octets than the emulator's
@@ -634,12 +635,17 @@ def check_C19(sc, v, tier, seed, replay):
                 # that waits for "the rest" of an oversized message hangs); the single octet / random classes rotate
                 gs = [classes[0], classes[1 + pi % 2 * 3], classes[5]] if si == 0 else [classes[[0, 5, 4, 1, 2, 3][pi % len(classes)]]]
                 gs.append(classes[2 + pi % 2]) if tier == "quick" and si == 0 and pi % 3 == 0 else None
+            if kind == "garbage":
+                gs.append(("cut", [3, 2, 12, 5][pi % 4]))      # the genuine answer without its last octets
             for gi, g in enumerate(gs):
                 # one scenario for all fault runs of a shape; the AMF's optional-IE choices rotate with the seed (seed % 3 = 2: the
                 # five-IE DownlinkNASTransport and the long InitialContextSetupRequest are the messages replaced by garbage)
-                scn, text = online.make_scenario(random.Random(seed * 7 + si), counts, opts={"det": si + seed % 3, "gnb_bits": 22 + (seed + 4 * 9) % 11},
-                                                 fault={"kind": kind, "at": at, "bytes": g})
-                jobs.append(("f%d-%s%02d%s" % (si, kind, at, "abcd"[gi] if kind == "garbage" else ""), scn, text))
+                # (the registration-only shape lets the subscriber block end on ...0000: the second UE's RAN-UE-NGAP-ID is 0)
+                fl = {"kind": kind, "at": at, "bytes": [], "cut": g[1]} if isinstance(g, tuple) else {"kind": kind, "at": at, "bytes": g}
+                scn, text = online.make_scenario(random.Random(seed * 7 + si), counts,
+                                                 opts={"det": si + seed % 3, "gnb_bits": 22 + (seed + 4 * 9) % 11, "free_msin": s[1] == 0, "imsi_len": 15, "low": 9999},
+                                                 fault=fl)
+                jobs.append(("f%d-%s%02d%s" % (si, kind, at, "abcde"[gi] if kind == "garbage" else ""), scn, text))
     runs = online.run_many(sc, emu, jobs, parallel=16, timeout=900)
     for r in runs:
         for rj in r["tlc"].rejects:
@@ -1017,7 +1023,8 @@ def check_C18(sc, v, tier, seed, replay):
         counts = {"reg": 1 + i % 2, "pdu": 1, "svc": i % 2, "rel": 1 - i % 2, "dereg": 1}
         # run 0: two-digit MNC "0x", OP only; run 1: three-digit MNC "0xy" (numeric value below 100), OPc and OP both given and different
         s2, t2 = online.make_scenario(rnd, counts, opts={"lead0": i % 2 == 0, "det": [2, 1][i % 2] + 3 * (i // 2), "mnc_len": [2, 3][i % 2],
-                                                         "use_opc": i % 2 == 1, "gnb_bits": 22 + (seed + 4 * (i + 7)) % 11})
+                                                         "use_opc": i % 2 == 1, "gnb_bits": 32 if i % 2 == 1 else 22 + (seed + 4 * (i + 7)) % 11,
+                                                         "gid_hex": i % 2 == 1})
         jobs.append(("wire%02d" % i, s2, t2))
     runs = online.run_many(sc, emu, jobs, parallel=8)
     _online_collect(v, runs, "C18", sc)
